@@ -70,7 +70,7 @@ fn c09(seed: u64, tier: &str, thorough: bool) -> CheckPlan {
     for (label, prog) in templates::value_kinds() {
         jobs.push(job("C09", "size_sweep", seed, tier, json!({"program": prog, "label": label, "skip_events": prefix, "max_points": 1500})));
         jobs.push(job("C09", "history", derive(seed, &label, 1), tier,
-            json!({"program": prog, "label": label, "count": if thorough { 60 } else { 10 }, "funcs": ["main", "v_aux"]})));
+            json!({"program": prog, "label": label, "count": if thorough { 600 } else { 10 }, "funcs": ["main", "v_aux"]})));
     }
     // every documented function: with its sample arguments and with one big argument
     let (calls, _, _) = crate::docsig::calls();
@@ -81,13 +81,13 @@ fn c09(seed: u64, tier: &str, thorough: bool) -> CheckPlan {
         for (label, call) in texts {
             k += 1;
             if thorough || (k + seed) % 6 == 0 {
-                jobs.push(job("C09", "size_sweep", seed, tier, json!({"program": crate::docsig::forcing_program_with_ballast(&call, &c.ret), "label": label, "finite": true, "skip_events": prefix, "max_points": if thorough { 600 } else { 120 }})));
+                jobs.push(job("C09", "size_sweep", seed, tier, json!({"program": crate::docsig::forcing_program_with_ballast(&call, &c.ret), "label": label, "finite": true, "skip_events": prefix, "max_points": if thorough { 3000 } else { 120 }})));
             }
         }
     }
-    let hist_scripts = corpus_ids(derive(seed, "c09hist", 0), if thorough { 200 } else { 24 });
+    let hist_scripts = corpus_ids(derive(seed, "c09hist", 0), if thorough { usize::MAX } else { 24 });
     for (k, id) in hist_scripts.into_iter().enumerate() {
-        jobs.push(job("C09", "history", derive(seed, "c09hist", k as u64 + 1), tier, json!({"script": id, "count": if thorough { 24 } else { 6 }})));
+        jobs.push(job("C09", "history", derive(seed, "c09hist", k as u64 + 1), tier, json!({"script": id, "count": if thorough { 100 } else { 6 }})));
     }
     jobs.push(job("C09", "payload", seed, tier, json!({})));
     CheckPlan {
@@ -117,9 +117,9 @@ fn c07(seed: u64, tier: &str, thorough: bool) -> CheckPlan {
     let mut jobs = vec![];
     for p in crate::checks::c07::catalogue() {
         let counts: Vec<u64> = if p.tail {
-            if thorough { vec![0, 1, 2, 3, 4, 7, 10, 100, 1000, 10_000, 100_000] } else { vec![0, 1, 2, 3, 10, 1000, 100_000] }
+            if thorough { (0..=32).chain([50, 100, 1000, 10_000, 100_000, 1_000_000]).collect() } else { vec![0, 1, 2, 3, 10, 1000, 100_000] }
         } else if thorough {
-            vec![0, 1, 2, 3, 4, 7, 10, 50, 200, 1000]
+            (0..=32).chain([50, 200, 1000, 3000]).collect()
         } else {
             vec![0, 1, 2, 3, 10, 200]
         };
@@ -131,10 +131,11 @@ fn c07(seed: u64, tier: &str, thorough: bool) -> CheckPlan {
         seed,
         level: "fault_enumeration".into(),
         jobs,
-        rule: "One evaluation = one run of a generated recursive function (fixed catalogue of self-call placements: 16 tail, 11 non-tail) \
-               at one iteration count under one depth/recursion limit configuration (fault-free, depth in {3, h-1, h, h+1}, recursion in {0, n-1, n, n+1}, \
+        rule: format!("One evaluation = one run of a generated recursive function (fixed catalogue of self-call placements: {} tail, {} non-tail) \
+               at one iteration count under one depth/recursion limit configuration (fault-free, depth in {{3, h-1, h, h+1}}, recursion in {{0, n-1, n, n+1}}, \
                and recursion combined with a tight depth limit). Outcome, deepest frame, tail-iteration count and call count are compared with closed forms. \
-               Distinct = (placement, n, depth limit, recursion limit, outcome class).".into(),
+               Distinct = (placement, n, depth limit, recursion limit, outcome class).",
+               crate::checks::c07::catalogue().iter().filter(|p| p.tail).count(), crate::checks::c07::catalogue().iter().filter(|p| !p.tail).count()),
         assumptions: vec![
             "placements outside the catalogue (arbitrary programs) are not decided".into(),
             "frame heights and tail iterations are read from observer events in RuntimeScope::from_template / the trampoline loop".into(),
@@ -154,7 +155,7 @@ fn c08(seed: u64, tier: &str, thorough: bool) -> CheckPlan {
             jobs.push(job("C08", "template", seed, tier, json!({"atoms": format!("{kind}:{p}"), "max_points": 200})));
         }
     }
-    let n_tpl = if thorough { 4000 } else { 250 };
+    let n_tpl = if thorough { 16000 } else { 250 };
     for i in 0..n_tpl {
         jobs.push(job("C08", "template", derive(seed, "c08tpl", i), tier, json!({"max_param": if thorough { 40 } else { 12 }, "max_atoms": 4, "max_points": if thorough { 200 } else { 48 }})));
     }
@@ -168,7 +169,7 @@ fn c08(seed: u64, tier: &str, thorough: bool) -> CheckPlan {
             jobs.push(job("C08", "corpus", derive(seed, "c08doc", k as u64), tier, json!({"program": crate::docsig::program(&c.call), "label": c.label, "max_points": if thorough { 200 } else { 40 }})));
         }
     }
-    let n_hist = if thorough { 3000 } else { 200 };
+    let n_hist = if thorough { 12000 } else { 200 };
     for i in 0..n_hist {
         jobs.push(job("C08", "history", derive(seed, "c08hist", i), tier, json!({"count": if thorough { 24 } else { 10 }})));
     }
@@ -284,7 +285,7 @@ fn c11(seed: u64, tier: &str, thorough: bool) -> CheckPlan {
         jobs.push(job("C11", "doc-seams", seed, tier, json!({"part": part, "parts": 32})));
     }
     let mut rng = Prng::new(derive(seed, "c11multi", 0));
-    let n_multi = if thorough { 1500 } else { 150 };
+    let n_multi = if thorough { 4000 } else { 150 };
     for i in 0..n_multi {
         let n = 2 + rng.below(3) as usize;
         let steps: Vec<String> = (0..n).map(|_| format!("{}/{}", rng.pick(SITES).0, rng.pick(CARRIERS).0)).collect();
@@ -340,7 +341,7 @@ fn c10(seed: u64, tier: &str, thorough: bool) -> CheckPlan {
     for part in 0..parts {
         jobs.push(job("C10", "doc-adversarial", derive(seed, "c10docadv", part), tier, json!({"part": part, "parts": parts, "pairs": if thorough { 300 } else { 2 }})));
     }
-    let n = if thorough { 4000 } else { 120 };
+    let n = if thorough { 12000 } else { 120 };
     for i in 0..n {
         jobs.push(job("C10", "pipelines", derive(seed, "c10pipe", i), tier, json!({"count": 25})));
     }
